@@ -62,7 +62,7 @@ struct Cmp {
         std::string family = mixed_unsigned_common ? "builtin-semantics/" : "by-value/";
         if constexpr (Mode == 2 && !std::is_same_v<L, R>) {
             // wide_integer operands of different types: cause region "an operand is not representable in the other operand's type"
-            if (!in_range<RRep>(za) || !in_range<LRep>(zb)) family = "by-value/operand-not-representable-in-other-wide-type/";
+            if (!in_range<RRep>(za) || !in_range<LRep>(zb)) family = "by-value/operand-not-representable-in-other-wide-type/", o.region = family;
         }
         for (int i = 0; i < 6; ++i) {
             if (got[i] != expect[i])
@@ -146,7 +146,7 @@ struct VsBuiltin {
                 if constexpr (is_native_int_v<TRep>)
                     return o.discard("alignment-does-not-fit");
                 else
-                    cause = "builtin-operand-alignment-does-not-fit/";
+                    cause = "builtin-operand-alignment-does-not-fit/", o.region = "vs-builtin/" + cause;
             }
         }
         T x = make_rep<T>(za);
